@@ -25,6 +25,7 @@ theorem Br.imp {Q Q' : Expr → Prop} (hq : ∀ i, Q i → Q' i) {e : Expr} (h :
   | field name sp _ ih => exact .field name sp ih
   | index sp _ hi hh ih => exact .index sp ih hi (hq _ hh)
   | inSuper ssp sp _ ih => exact .inSuper ssp sp ih
+  | call args ts sp _ ha ih => exact .call args ts sp ih (fun a hm => ⟨(ha a hm).1, hq _ (ha a hm).2⟩)
 
 /-- `parse_expr` (with enough fuel) reads back a printed fragment tree -/
 def MainP (toks : List Token) (e : Expr) : Prop :=
@@ -89,6 +90,9 @@ theorem frag_main {e : Expr} (h : Frag e) : Br (MainP toks) e ∧ MainP toks e :
     exact ⟨hb, main_of_br hb⟩
   | inSuper ssp sp _ ih =>
     have hb : Br (MainP toks) _ := .inSuper ssp sp ih.1
+    exact ⟨hb, main_of_br hb⟩
+  | call args ts sp _ ha ihf iha =>
+    have hb : Br (MainP toks) _ := .call args ts sp ihf.1 (fun a hm => ⟨ha a hm, (iha a hm).2⟩)
     exact ⟨hb, main_of_br hb⟩
 
 end
